@@ -266,13 +266,19 @@ static Verdict run_exh(const ExhCase &c) {
     for (int i = 0; i < N; i++) {
       float val = i < 100 ? -3.0f + 3.0f * i / 100 : i < 300 ? (i - 100) / 200.0f : 1.0f + 2.0f * (i - 300) / 99;
       if (i == 0) val = -1e30f;
+      if (i == N - 3) val = 1e5f;
+      if (i == N - 2) val = 1.7e7f;
       if (i == N - 1) val = 1e30f;
       for (int k = 0; k < 4; k++) q[4 * i + k] = val;
     }
+    // Two routes to the store: SRC (whose float combiner already limits the value to 1 from above), and — for formats
+    // with an alpha channel — MULTIPLY onto a cleared destination, whose combiner hands s + s*0 = s to the store as it is,
+    // however large (seeded C10s)
+    for (int route = 0; route < (abits(f) ? 2 : 1) && v.ok; route++) {
     Bits nb = gen_bits_fixed(c.fmt, N, 1, 2);
-    nb.fill = FILL_RANDOM;
+    nb.fill = route ? FILL_ZERO : FILL_RANDOM;
     auto ndst = make_image(nb);
-    pixman_image_composite32(PIXMAN_OP_SRC, fsrc->im, nullptr, ndst->im, 0, 0, 0, 0, 0, 0, N, 1);
+    pixman_image_composite32(route ? PIXMAN_OP_MULTIPLY : PIXMAN_OP_SRC, fsrc->im, nullptr, ndst->im, 0, 0, 0, 0, 0, 0, N, 1);
     uint32_t prev[4] = {0, 0, 0, 0};
     int bitsn[4] = {abits(f), rbits(f), gbits(f), bbits(f)};
     for (int i = 0; i < N && v.ok; i++) {
@@ -282,11 +288,12 @@ static Verdict run_exh(const ExhCase &c) {
       for (int k = 0; k < 4 && v.ok; k++) {
         if (!bitsn[k]) continue;
         uint32_t mx = fieldmask(bitsn[k]);
-        if (val <= 0 && cv[k] != 0) v.fail(fmt("narrowing %g to %s: channel %d stores %u, not 0", (double)val, FORMATS[c.fmt].name, k, cv[k]));
-        else if (val >= 1 && cv[k] != mx) v.fail(fmt("narrowing %g to %s: channel %d stores %u, not the maximum %u", (double)val, FORMATS[c.fmt].name, k, cv[k], mx));
+        if (val <= 0 && cv[k] != 0) v.fail(fmt("narrowing %g to %s (%s): channel %d stores %u, not 0", (double)val, FORMATS[c.fmt].name, route ? "MULTIPLY onto a cleared destination" : "SRC", k, cv[k]));
+        else if (val >= 1 && cv[k] != mx) v.fail(fmt("narrowing %g to %s (%s): channel %d stores %u, not the maximum %u", (double)val, FORMATS[c.fmt].name, route ? "MULTIPLY onto a cleared destination" : "SRC", k, cv[k], mx));
         else if (cv[k] < prev[k]) v.fail(fmt("narrowing to %s is not monotone at %g: channel %d goes from %u to %u", FORMATS[c.fmt].name, (double)val, k, prev[k], cv[k]));
         prev[k] = cv[k];
       }
+    }
     }
     v.label("float_ramp_narrowed");
   }
